@@ -526,7 +526,7 @@ theorem double_open_close_refused (P : Plan) (n : Nat) (po pc : Prog) (f : Nat) 
         (exec P f pc s).2 = .raised .invalidOp ∧ SameCore (exec P f pc s).1 s) :=
   ⟨open_refused_when_open P n po f s hgo, close_refused_when_closed P pc f s hgc⟩
 
-/-- non-vacuity: Cobolt-shaped open (no explicit check: the transport refuses) and a close -/
+/-- non-vacuity: an open() without an explicit check (the transport refuses the second open) and a close -/
 example : openGuarded 1 [.atom 1 .pure, .atom 2 (.tOpen 0), .atom 3 .io, .atom 4 .superOpen] = true := by decide
 example : closeGuarded [.atom 1 .pure, .atom 2 .superClose, .atom 3 (.tClose 0)] = true := by decide
 example : FullyOpen 1 ⟨true, [0], [], [], 0⟩ := ⟨rfl, fun t ht => by
@@ -869,7 +869,8 @@ theorem consistent_of_wf (P : Plan) (p : Prog) (f : Nat) (s : St) (hw : wfOpen p
     (hc : FullyClosed s) (hfuel : (exec P f p s).2 ≠ .outOfFuel) : Consistent 1 (exec P f p s).1 :=
   (settled_of_wf P p f s hw hc hfuel).consistent
 
-/-- non-vacuity: the K10CR1-shaped program is well-formed; the Cobolt-shaped and the TGF-shaped ones are not -/
+/-- non-vacuity: the K10CR1-shaped program is well-formed; the historical shapes of `Cobolt_Laser_06_01.open()` (before
+    fix 6a9048d) and `TT_TGF_3000_4000_Series.open()` (before fix 35a136e) are not. Constants, not the source. -/
 example : wfOpen [.atom 1 .pure, .atom 2 .checkClosed, .atom 3 (.tOpen 0),
     .try_ [.atom 5 .pure, .atom 6 .io, .atom 7 .io] allKinds [.atom 8 (.tClose 0)] .reraise, .atom 10 .superOpen] = true := by decide
 example : wfOpen [.atom 1 .pure, .atom 2 (.tOpen 0), .atom 3 .io, .atom 4 .superOpen] = false := by decide
@@ -953,8 +954,8 @@ theorem exec_congr : ∀ (f : Nat) (p : Prog) (a b : St), CoreEq a b →
 
 /-- **retry_possible.** If `open()` failed (under any plan) but left the instrument consistent and marked closed,
     then no link is held and a new `open()` behaves exactly like `open()` on a fresh instrument: same result,
-    same final flag and links. (For the defective drivers the premise fails: the link is still held and the
-    retry is refused — see the `bad_<Driver>` theorems and the example below.) -/
+    same final flag and links. (For a defective driver the premise fails: the link is still held and the
+    retry is refused — see the historical example below; the check states `bad_<Driver>` should one reappear.) -/
 theorem retry_possible (n : Nat) (P : Plan) (f : Nat) (p : Prog)
     (hcons : Consistent n (exec P f p init).1) (hclosed : (exec P f p init).1.instrOpen = false) :
     FullyClosed (exec P f p init).1 ∧
@@ -970,7 +971,8 @@ example :
       .try_ [.atom 4 .io, .atom 5 .io] allKinds [.atom 6 (.tClose 0)] .reraise, .atom 8 .superOpen]
     let r := exec (some (2, .timeout)) 50 p init
     r.2 = .raised .timeout ∧ consistentB 1 r.1 = true ∧ r.1.instrOpen = false ∧ (exec none 50 p r.1).2 = .ok := by decide
-/-- Cobolt-shaped program: the failed open leaves the link held, the retry is refused for ever -/
+/-- historical example (shape of `Cobolt_Laser_06_01.open()` before fix 6a9048d; a constant, not the source):
+    the failed open leaves the link held, the retry is refused for ever -/
 example :
     let p : Prog := [.atom 1 .pure, .atom 2 (.tOpen 0), .atom 3 .io, .atom 4 .superOpen]
     let r := exec (some (1, .timeout)) 50 p init
@@ -1157,5 +1159,357 @@ example :
     let po : Prog := [.atom 1 .pure, .atom 2 (.tOpen 0), .atom 3 .superOpen, .atom 4 .io]
     wfOpen po = true ∧ (exec (some (1, .instr)) 50 po init).2 = .raised .instr ∧
       (exec (some (1, .instr)) 50 po init).1.instrOpen = true := by decide
+
+/-! ## The general discipline: a plan-independent abstract run
+
+`chk` runs a program on the *core* of the state (flag, open links) without a fault plan: at every fault point both
+continuations are followed — the normal one, and the exceptional one through the enclosing handlers, summarised by
+the acceptance predicate `K` ("raising here, in this state, ends in an acceptable state").  It accepts programs of
+any nesting depth and any number of links (e.g. the two-channel `Bristol_871A.open()`), and it is sound for
+*every* fault plan (`chk_sound`), so `safeOpen` is a decidable discipline that implies consistency. -/
+
+abbrev Core := Bool × List Nat
+
+def core (s : St) : Core := (s.instrOpen, s.links)
+
+/-- abstract effect of one atom: `none` = raises for sure in this state (not accepted);
+    `some (σ', canRaise)` = state after normal completion, and whether it is a fault point -/
+def absAtom (a : Atom) (σ : Core) : Option (Core × Bool) :=
+  match a with
+  | .pure => some (σ, false)
+  | .io => some (σ, true)
+  | .checkClosed => if σ.1 then none else some (σ, false)
+  | .checkOpen => if σ.1 then some (σ, false) else none
+  | .superOpen => if σ.1 then none else some ((true, σ.2), false)
+  | .superClose => if σ.1 then some ((false, σ.2), false) else none
+  | .tOpen t => if σ.2.contains t then none else some ((σ.1, t :: σ.2), true)
+  | .tClose t => if σ.2.contains t then some ((σ.1, σ.2.filter (· != t)), false) else none
+
+/-- abstract run; `K τ` = "an exception raised in core state τ is acceptable here" -/
+def chk : Nat → (Core → Bool) → Core → Prog → Option Core
+  | 0, _, _, _ => none
+  | _ + 1, _, σ, [] => some σ
+  | f + 1, K, σ, .atom _ a :: rest =>
+      match absAtom a σ with
+      | none => none
+      | some (σ', cr) => if cr && !K σ then none else chk f K σ' rest
+  | f + 1, K, σ, .try_ body cs h ex :: rest =>
+      match chk f (fun τ =>
+          (catchesAll cs || K τ) &&
+          (match chk f (fun _ => false) τ h with
+           | some τ' => ex != .swallow && K τ'
+           | none => false)) σ body with
+      | none => none
+      | some σ1 => chk f K σ1 rest
+
+private theorem absAtom_sound (P : Plan) (id : Nat) (a : Atom) (s : St) (σ' : Core) (cr : Bool)
+    (h : absAtom a (core s) = some (σ', cr)) :
+    ((stepAtom P id a s).2 = .ok ∧ core (stepAtom P id a s).1 = σ') ∨
+    (cr = true ∧ ∃ κ, (stepAtom P id a s).2 = .raised κ ∧ core (stepAtom P id a s).1 = core s) := by
+  obtain ⟨fl, ln, io, tr, cn⟩ := s
+  cases a with
+  | pure =>
+    simp only [absAtom, core, Option.some.injEq, Prod.mk.injEq] at h
+    exact Or.inl ⟨rfl, h.1⟩
+  | io =>
+    simp only [absAtom, core, Option.some.injEq, Prod.mk.injEq] at h
+    obtain ⟨h1, h2⟩ := h
+    unfold stepAtom
+    simp only
+    split
+    · next κ _ => exact Or.inr ⟨h2.symm, κ, rfl, rfl⟩
+    · exact Or.inl ⟨rfl, h1⟩
+  | checkClosed =>
+    cases fl <;> simp [absAtom, core] at h
+    exact Or.inl ⟨rfl, by simp [core, stepAtom, h.1]⟩
+  | checkOpen =>
+    cases fl <;> simp [absAtom, core] at h
+    exact Or.inl ⟨rfl, by simp [core, stepAtom, h.1]⟩
+  | superOpen =>
+    cases fl <;> simp [absAtom, core] at h
+    exact Or.inl ⟨rfl, by simp [core, stepAtom, h.1]⟩
+  | superClose =>
+    cases fl <;> simp [absAtom, core] at h
+    exact Or.inl ⟨rfl, by simp [core, stepAtom, h.1]⟩
+  | tOpen t =>
+    by_cases hm : t ∈ ln
+    · simp [absAtom, core, hm] at h
+    · have hc : ln.contains t = false := by simpa using hm
+      simp only [absAtom, core, hc, Bool.false_eq_true, if_false, Option.some.injEq, Prod.mk.injEq] at h
+      obtain ⟨h1, h2⟩ := h
+      unfold stepAtom
+      simp only [hc, Bool.false_eq_true, if_false]
+      split
+      · next κ _ => exact Or.inr ⟨h2.symm, κ, rfl, rfl⟩
+      · exact Or.inl ⟨rfl, h1⟩
+  | tClose t =>
+    by_cases hm : t ∈ ln
+    · have hc : ln.contains t = true := by simpa using hm
+      simp only [absAtom, core, hc, if_true, Option.some.injEq, Prod.mk.injEq] at h
+      unfold stepAtom
+      simp only [hc, if_true]
+      exact Or.inl ⟨by simp, by simpa [core] using h.1⟩
+    · simp [absAtom, core, hm] at h
+
+/-- **chk_sound.** If the abstract run accepts, then under *every* fault plan the real run either completes
+    normally in the predicted core state, or raises in a state the acceptance predicate admits; it never
+    runs out of fuel. -/
+theorem chk_sound (P : Plan) : ∀ (f : Nat) (K : Core → Bool) (σ : Core) (p : Prog) (σ' : Core),
+    chk f K σ p = some σ' → ∀ s : St, core s = σ →
+    ((exec P f p s).2 = .ok ∧ core (exec P f p s).1 = σ') ∨
+    (∃ κ, (exec P f p s).2 = .raised κ ∧ K (core (exec P f p s).1) = true) := by
+  intro f
+  induction f with
+  | zero => intro K σ p σ' h; simp [chk] at h
+  | succ f ih =>
+    intro K σ p σ' h s hs
+    cases p with
+    | nil =>
+      simp only [chk, Option.some.injEq] at h
+      exact Or.inl ⟨rfl, by simpa [exec] using hs.trans h⟩
+    | cons st rest =>
+      cases st with
+      | atom id a =>
+        simp only [chk] at h
+        simp only [exec]
+        cases ha : absAtom a σ with
+        | none => simp [ha] at h
+        | some pr =>
+          obtain ⟨σ1, cr⟩ := pr
+          simp only [ha] at h
+          by_cases hk : (cr && !K σ) = true
+          · simp [hk] at h
+          · simp only [hk, Bool.false_eq_true, if_false] at h
+            rcases absAtom_sound P id a s σ1 cr (by rw [hs]; exact ha) with ⟨hok, hc⟩ | ⟨hcr, κ, hr, hc⟩
+            · rw [andThen_ok hok]
+              exact ih K σ1 rest σ' h _ hc
+            · rw [andThen_not_ok (by rw [hr]; simp)]
+              refine Or.inr ⟨κ, hr, ?_⟩
+              rw [hc, hs]
+              subst hcr
+              simpa using hk
+      | try_ body cs hd ex =>
+        simp only [chk] at h
+        simp only [exec]
+        generalize hKb : (fun τ => (catchesAll cs || K τ) &&
+          (match chk f (fun _ => false) τ hd with
+           | some τ' => ex != .swallow && K τ'
+           | none => false)) = Kb at h
+        cases hb : chk f Kb σ body with
+        | none => simp [hb] at h
+        | some σ1 =>
+          simp only [hb] at h
+          rcases ih Kb σ body σ1 hb s hs with ⟨hok, hc⟩ | ⟨κ, hr, hkb⟩
+          · have e : handleRes cs ex (exec P f body s) (exec P f hd) = exec P f body s := by
+              unfold handleRes; rw [hok]
+            rw [e, andThen_ok hok]
+            exact ih K σ1 rest σ' h _ hc
+          · subst hKb
+            simp only [Bool.and_eq_true, Bool.or_eq_true] at hkb
+            obtain ⟨hk1, hk2⟩ := hkb
+            by_cases hcon : cs.contains κ = true
+            · -- caught: the handler runs quietly, then the exit raises
+              cases hh : chk f (fun _ => false) (core (exec P f body s).1) hd with
+              | none => simp [hh] at hk2
+              | some τ' =>
+                simp only [hh, Bool.and_eq_true, bne_iff_ne, ne_eq] at hk2
+                obtain ⟨hex, hkt⟩ := hk2
+                rcases ih (fun _ => false) _ hd τ' hh (exec P f body s).1 rfl with ⟨hok2, hc2⟩ | ⟨κ2, _, hfalse⟩
+                · have e : handleRes cs ex (exec P f body s) (exec P f hd) =
+                      ((exec P f hd (exec P f body s).1).1, ex.apply κ) := by
+                    unfold handleRes; simp only [hr, hcon, if_true]; rw [hok2]
+                  have hne : ex.apply κ ≠ .ok := by
+                    cases ex <;> simp [Exit.apply] at hex ⊢
+                  rw [e, andThen_not_ok hne]
+                  cases ex with
+                  | reraise => exact Or.inr ⟨κ, rfl, by rw [hc2]; exact hkt⟩
+                  | raiseK κ' => exact Or.inr ⟨κ', rfl, by rw [hc2]; exact hkt⟩
+                  | swallow => exact absurd rfl hex
+                · exact absurd hfalse (by simp)
+            · -- not caught: the exception passes through
+              have hnall : catchesAll cs = false := by
+                cases hca : catchesAll cs
+                · rfl
+                · exact absurd (catchesAll_contains hca κ) hcon
+              have hK : K (core (exec P f body s).1) = true := by
+                rcases hk1 with h1 | h1
+                · rw [hnall] at h1; exact absurd h1 (by simp)
+                · exact h1
+              have e : handleRes cs ex (exec P f body s) (exec P f hd) = exec P f body s := by
+                unfold handleRes; simp only [hr, hcon, Bool.false_eq_true, if_false]
+              rw [e, andThen_not_ok (by rw [hr]; simp)]
+              exact Or.inr ⟨κ, hr, hK⟩
+
+
+/-- the acceptance predicate of `open()`: the property itself, on the core state -/
+def goodB (n : Nat) (σ : Core) : Bool :=
+  if σ.1 then (List.range n).all (fun t => σ.2.contains t) else σ.2.isEmpty
+
+theorem goodB_core (n : Nat) (s : St) : goodB n (core s) = consistentB n s := rfl
+
+/-- the general discipline for `open()`: the abstract run from the closed state accepts, every exceptional exit
+    and the normal exit end in a state that satisfies the property -/
+def safeOpen (n : Nat) (p : Prog) : Bool :=
+  match chk fuel0 (goodB n) (false, []) p with
+  | some σ => goodB n σ
+  | none => false
+
+/-- **consistent_of_safe** (generalises `consistent_of_wf` to any nesting depth and any number of links).
+    A driver whose `open()` passes `safeOpen` leaves the instrument consistent under *every* fault plan, and the run
+    is complete (fuel not exhausted). -/
+theorem consistent_of_safe (n : Nat) (p : Prog) (h : safeOpen n p = true) (P : Plan) (s : St) (hs : FullyClosed s) :
+    Consistent n (exec P fuel0 p s).1 ∧ (exec P fuel0 p s).2 ≠ .outOfFuel := by
+  unfold safeOpen at h
+  cases hc : chk fuel0 (goodB n) (false, []) p with
+  | none => simp [hc] at h
+  | some σ =>
+    simp only [hc] at h
+    have hcore : core s = (false, []) := by
+      unfold core; rw [hs.1, hs.2]
+    rcases chk_sound P fuel0 (goodB n) (false, []) p σ hc s hcore with ⟨hok, hco⟩ | ⟨κ, hr, hk⟩
+    · refine ⟨(consistentB_iff _ _).mp ?_, by rw [hok]; simp⟩
+      rw [← goodB_core, hco]; exact h
+    · refine ⟨(consistentB_iff _ _).mp ?_, by rw [hr]; simp⟩
+      rw [← goodB_core]; exact hk
+
+/-- non-vacuity: the repaired two-channel Bristol shape (nested handlers, two links), the K10CR1 shape and the
+    one-channel Bristol shape with an empty inner handler are accepted; the historical shapes of
+    `Cobolt_Laser_06_01.open()` (before fix 6a9048d: unguarded I/O), `TT_TGF….open()` (before 35a136e: `except OSError`)
+    and `Rigol_Dg4102.open()` (before 7095518: flag first) are rejected.  These are constants, not the source. -/
+example : safeOpen 2 [.atom 1 .pure, .atom 3 (.tOpen 0),
+    .try_ [.atom 6 (.tOpen 1), .try_ [.atom 8 .io] allKinds [.atom 11 (.tClose 1)] .reraise] allKinds
+      [.atom 14 (.tClose 0)] .reraise, .atom 16 .superOpen] = true := by decide
+example : safeOpen 1 [.atom 1 .pure, .atom 3 (.tOpen 0),
+    .try_ [.try_ [.atom 8 .io] allKinds [] .reraise] allKinds [.atom 14 (.tClose 0)] .reraise,
+    .atom 16 .superOpen] = true := by decide
+example : safeOpen 1 [.atom 1 .pure, .atom 2 .checkClosed, .atom 3 (.tOpen 0),
+    .try_ [.atom 5 .pure, .atom 6 .io, .atom 7 .io] allKinds [.atom 8 (.tClose 0)] .reraise, .atom 10 .superOpen,
+    .atom 11 .io] = true := by decide
+example : safeOpen 1 [.atom 1 .pure, .atom 2 (.tOpen 0), .atom 3 .io, .atom 4 .superOpen] = false := by decide
+example : safeOpen 1 [.atom 1 .pure, .atom 2 (.tOpen 0), .try_ [.atom 4 .io] [.os] [.atom 5 (.tClose 0)] .reraise,
+    .atom 7 .superOpen] = false := by decide
+example : safeOpen 1 [.atom 1 .pure, .atom 2 .superOpen, .atom 3 (.tOpen 0)] = false := by decide
+
+/-! ### the fault-free run follows the abstract run exactly (used for `close()` after `open()`) -/
+
+private theorem absAtom_sound_none (id : Nat) (a : Atom) (s : St) (σ' : Core) (cr : Bool)
+    (h : absAtom a (core s) = some (σ', cr)) :
+    (stepAtom none id a s).2 = .ok ∧ core (stepAtom none id a s).1 = σ' := by
+  rcases absAtom_sound none id a s σ' cr h with hok | ⟨_, κ, hr, _⟩
+  · exact hok
+  · -- without a plan no fault point raises, and `absAtom` excluded the state-determined raises
+    exfalso
+    obtain ⟨fl, ln, io, tr, cn⟩ := s
+    cases a with
+    | pure => simp [stepAtom] at hr
+    | io => simp [stepAtom, fault] at hr
+    | checkClosed => cases fl <;> simp [absAtom, core, stepAtom] at h hr
+    | checkOpen => cases fl <;> simp [absAtom, core, stepAtom] at h hr
+    | superOpen => cases fl <;> simp [absAtom, core, stepAtom] at h hr
+    | superClose => cases fl <;> simp [absAtom, core, stepAtom] at h hr
+    | tOpen t =>
+      by_cases hm : t ∈ ln
+      · simp [absAtom, core, hm] at h
+      · simp [stepAtom, fault, hm] at hr
+    | tClose t =>
+      by_cases hm : t ∈ ln
+      · simp [stepAtom, hm] at hr
+      · simp [absAtom, core, hm] at h
+
+theorem chk_sound_nofault : ∀ (f : Nat) (K : Core → Bool) (σ : Core) (p : Prog) (σ' : Core),
+    chk f K σ p = some σ' → ∀ s : St, core s = σ →
+    (exec none f p s).2 = .ok ∧ core (exec none f p s).1 = σ' := by
+  intro f
+  induction f with
+  | zero => intro K σ p σ' h; simp [chk] at h
+  | succ f ih =>
+    intro K σ p σ' h s hs
+    cases p with
+    | nil =>
+      simp only [chk, Option.some.injEq] at h
+      exact ⟨rfl, by simpa [exec] using hs.trans h⟩
+    | cons st rest =>
+      cases st with
+      | atom id a =>
+        simp only [chk] at h
+        simp only [exec]
+        cases ha : absAtom a σ with
+        | none => simp [ha] at h
+        | some pr =>
+          obtain ⟨σ1, cr⟩ := pr
+          simp only [ha] at h
+          by_cases hk : (cr && !K σ) = true
+          · simp [hk] at h
+          · simp only [hk, Bool.false_eq_true, if_false] at h
+            have := absAtom_sound_none id a s σ1 cr (by rw [hs]; exact ha)
+            rw [andThen_ok this.1]
+            exact ih K σ1 rest σ' h _ this.2
+      | try_ body cs hd ex =>
+        simp only [chk] at h
+        simp only [exec]
+        generalize (fun τ => (catchesAll cs || K τ) &&
+          (match chk f (fun _ => false) τ hd with
+           | some τ' => ex != .swallow && K τ'
+           | none => false)) = Kb at h
+        cases hb : chk f Kb σ body with
+        | none => simp [hb] at h
+        | some σ1 =>
+          simp only [hb] at h
+          have hbody := ih Kb σ body σ1 hb s hs
+          have e : handleRes cs ex (exec none f body s) (exec none f hd) = exec none f body s := by
+            unfold handleRes; rw [hbody.1]
+          rw [e, andThen_ok hbody.1]
+          exact ih K σ1 rest σ' h _ hbody.2
+
+/-- `open()` passes the discipline and `close()`, run abstractly from the state `open()` ends in, ends fully closed -/
+def safeClose (n : Nat) (po pc : Prog) : Bool :=
+  match chk fuel0 (goodB n) (false, []) po with
+  | some σ =>
+    σ.1 && goodB n σ &&
+    (match chk fuel0 (fun _ => true) σ pc with
+     | some τ => !τ.1 && τ.2.isEmpty
+     | none => false)
+  | none => false
+
+/-- **close_after_open_safe** (generalises the success part of `close_after_open` to any number of links):
+    a successful `open()` opens every link, and `close()` then succeeds and leaves the instrument fully closed. -/
+theorem close_after_open_safe (n : Nat) (po pc : Prog) (h : safeClose n po pc = true) (s : St) (hs : FullyClosed s) :
+    (exec none fuel0 po s).2 = .ok ∧ FullyOpen n (exec none fuel0 po s).1 ∧
+    (exec none fuel0 pc (exec none fuel0 po s).1).2 = .ok ∧
+    FullyClosed (exec none fuel0 pc (exec none fuel0 po s).1).1 := by
+  unfold safeClose at h
+  cases hc : chk fuel0 (goodB n) (false, []) po with
+  | none => simp [hc] at h
+  | some σ =>
+    simp only [hc, Bool.and_eq_true] at h
+    obtain ⟨⟨hflag, hgood⟩, hclose⟩ := h
+    have hcore : core s = (false, []) := by
+      unfold core; rw [hs.1, hs.2]
+    have ho := chk_sound_nofault fuel0 (goodB n) (false, []) po σ hc s hcore
+    cases hc2 : chk fuel0 (fun _ => true) σ pc with
+    | none => simp [hc2] at hclose
+    | some τ =>
+      simp only [hc2, Bool.and_eq_true, Bool.not_eq_true', List.isEmpty_iff] at hclose
+      have hcl := chk_sound_nofault fuel0 (fun _ => true) σ pc τ hc2 _ ho.2
+      have hflag' : (exec none fuel0 po s).1.instrOpen = true := by
+        have := congrArg Prod.fst ho.2
+        simp only [core] at this
+        rw [this]; exact hflag
+      have hcons : Consistent n (exec none fuel0 po s).1 :=
+        (consistentB_iff _ _).mp (by rw [← goodB_core, ho.2]; exact hgood)
+      refine ⟨ho.1, ⟨hflag', hcons.1 hflag'⟩, hcl.1, ?_, ?_⟩
+      · have := congrArg Prod.fst hcl.2
+        simp only [core] at this
+        rw [this]; exact hclose.1
+      · have := congrArg Prod.snd hcl.2
+        simp only [core] at this
+        rw [this]; exact hclose.2
+
+example : safeClose 2
+    [.atom 1 .pure, .atom 3 (.tOpen 0),
+     .try_ [.atom 6 (.tOpen 1), .try_ [.atom 8 .io] allKinds [.atom 11 (.tClose 1)] .reraise] allKinds
+       [.atom 14 (.tClose 0)] .reraise, .atom 16 .superOpen]
+    [.atom 1 .pure, .atom 2 .checkOpen, .atom 3 .io, .atom 6 .superClose, .atom 8 (.tClose 1), .atom 10 (.tClose 0)]
+    = true := by decide
 
 end QmiModel.C19
